@@ -195,7 +195,10 @@ func c02Check(w *World, pol string, mx, bo int, stop string) []Violation {
 			}
 		} else {
 			// a relaunch is due unless a stop was requested before it could happen
-			due := stopReq < 0 || (stopReq > ei && tr[stopReq].T-e.T > minGap)
+			// (the back-off starts when the supervisor has handled the exit, which a schedule with k
+			// deviations may delay by up to k clock quanta: be that much more patient)
+			slack := time.Duration(w.sc.K+1) * quantum
+			due := stopReq < 0 || (stopReq > ei && tr[stopReq].T-e.T > minGap+slack)
 			if allowed && due && !e.Flag {
 				vs = append(vs, viol("C02", "relaunch-missing:"+orDash(pol), "exit #%d code %d was not followed by a relaunch (policy %q, max %d, outcome %s)", n, e.Code, pol, mx, w.Outcome))
 			}
